@@ -148,9 +148,9 @@ class SWorld:
     """a real Server / AsyncServer on the fake engine.io, driven through the callbacks engine.io
     would call (whatever is registered with eio.on at that moment)"""
 
-    def __init__(self, asyncio_=False, chooser=None, P=None, max_steps=600, **kw):
+    def __init__(self, asyncio_=False, chooser=None, P=None, max_steps=600, drv=None, **kw):
         self.asyncio_ = asyncio_
-        self.drv = AsyncDriver(chooser, max_steps) if asyncio_ else SyncDriver()
+        self.drv = drv or (AsyncDriver(chooser, max_steps) if asyncio_ else SyncDriver())
         self.s, self.eio, self.P = make_server(asyncio_, P=P or inj_packet_class(), **kw)
         self.pos = {}
 
